@@ -18,6 +18,8 @@ RULE = ("random abstract queries of the documented EBNF: 1-3 or-ed conjunctions 
         "14% of all values are a corpus word with exactly ONE kind of regexp operator (every metacharacter of regexp/syntax: . + * ? {n} {n,} {n,m} | () [] ^ $ "
         "and backslash escapes) or with punctuation that is no operator ({ } , - = #); 12% are classes / flag groups that regexp/syntax turns into fold-case "
         "literals ([fF], [fF]oo, [hH][eE]llo, (?:f|F)oo, (?i:f)oo, (?i:foo), (?i)foo); "
+        "1 query in 7 has an explicit case: directive in EVERY group at every depth (each flavour, also case:auto, inside each other flavour's scope), small "
+        "conjunctions of mostly pattern atoms over words whose other spellings occur in other documents; "
         "printed with a blank after '('; distinct by printed string; non-trivial = >= 2 expressions. Every case is reference-evaluated on a corpus of "
         "2 repositories / 11 documents with symbols (incl. sym: and type:filename).")
 TRUSTED = [
